@@ -187,6 +187,7 @@ type c15Op struct {
 	Done      bool   `json:"done"` // run until the thread finishes
 	N         int    `json:"n"`
 	Target    int    `json:"target"`
+	Cancel    bool   `json:"cancel"` // start: the Ask gets a cancellable context (cancelled by op "cancel")
 }
 
 type c15Case struct {
@@ -242,6 +243,7 @@ func c15RunCase(t *testing.T, sys ActorSystem, c c15Case) c15Out {
 	// cases are independent: a reply channel pooled by an earlier case may hold a stale reply
 	c15DrainPools(false, true)
 	order := []int{}
+	cancels := map[int]context.CancelFunc{}
 	wait := func(th *c15Thread) (c15Event, bool) {
 		select {
 		case e := <-th.events:
@@ -313,6 +315,12 @@ func c15RunCase(t *testing.T, sys ActorSystem, c c15Case) c15Out {
 			to := targets[op.Target%len(targets)]
 			msg := &c15Msg{ID: i, NResp: op.NResp}
 			timeout := time.Duration(op.TimeoutMs) * time.Millisecond
+			actx := ctx
+			if op.Cancel {
+				var cf context.CancelFunc
+				actx, cf = context.WithCancel(ctx)
+				cancels[i] = cf
+			}
 			go func() {
 				th := d.register(fmt.Sprintf("A%d", i))
 				started <- th
@@ -321,11 +329,11 @@ func c15RunCase(t *testing.T, sys ActorSystem, c c15Case) c15Out {
 				var err error
 				switch op.Api {
 				case "pkg":
-					r, err = Ask(ctx, to, msg, timeout)
+					r, err = Ask(actx, to, msg, timeout)
 				case "remote":
-					r, err = sys.(*actorSystem).handleRemoteAsk(ctx, to, msg, timeout)
+					r, err = sys.(*actorSystem).handleRemoteAsk(actx, to, msg, timeout)
 				default:
-					r, err = sys.NoSender().Ask(ctx, to, msg, timeout)
+					r, err = sys.NoSender().Ask(actx, to, msg, timeout)
 				}
 				d.mu.Lock()
 				if err != nil {
@@ -404,6 +412,14 @@ func c15RunCase(t *testing.T, sys ActorSystem, c c15Case) c15Out {
 			}
 			time.Sleep(time.Until(at.Add(time.Duration(r.TimeoutMs)*time.Millisecond + 25*time.Millisecond)))
 			d.note(fmt.Sprintf("A%d", op.I), "tick")
+		case "cancel":
+			if cf := cancels[op.I]; cf != nil {
+				cf()
+				time.Sleep(5 * time.Millisecond)
+				d.note(fmt.Sprintf("A%d", op.I), "tick")
+			} else {
+				return fail("op %d: ask %d has no cancellable context", n, op.I)
+			}
 		case "tell":
 			for k := 0; k < op.N; k++ {
 				f := &c15Filler{done: make(chan struct{})}
